@@ -130,6 +130,9 @@ void CONmtReset(CO_NMT *nmt, CO_NMT_RESET type)
         COTmrClear(&nmt->Node->Tmr);
         CONmtInit(nmt, nmt->Node);
         COSdoInit(nmt->Node->Sdo, nmt->Node);
+#if USE_CSDO
+        COCSdoRestart(nmt->Node->CSdo, nmt->Node);
+#endif
         COIfCanReset(&nmt->Node->If);
         COEmcyReset(&nmt->Node->Emcy, 1);
         COSyncInit(&nmt->Node->Sync, nmt->Node);
